@@ -37,6 +37,50 @@ pub enum Op {
     SmtLoop(usize, u32, u32),
     LoopFin(usize, u32, u32),
     LoopInf(usize, u32),
+    /// macro constructor: the union of n two-letter words [b1 + s1*k][b2 + s2*k], k < n, given to union_list in a
+    /// scrambled order (tree = false) or folded as a balanced tree of binary unions (tree = true); with extra, a
+    /// one-letter range and a character it subsumes are among the operands
+    Wide { n: u32, b1: u32, s1: u32, b2: u32, s2: u32, extra: bool, tree: bool },
+}
+
+pub const WIDE_EXTRA: u32 = 0x2F000;
+
+/// a fixed scrambled order of 0..n
+pub fn wide_order(n: u32) -> Vec<u32> {
+    fn gcd(a: u32, b: u32) -> u32 {
+        if b == 0 {
+            a
+        } else {
+            gcd(b, a % b)
+        }
+    }
+    let mut st = n / 2 + 1;
+    while gcd(st, n) != 1 {
+        st += 1;
+    }
+    (0..n).map(|k| ((k as u64 * st as u64 + 1) % n as u64) as u32).collect()
+}
+
+/// the operand words of Op::Wide in the order they are handed to the constructor: (first, last) or a one-letter range
+pub fn wide_items(n: u32, b1: u32, s1: u32, b2: u32, s2: u32, extra: bool) -> Vec<Result<(u32, u32), (u32, u32)>> {
+    let mut v: Vec<Result<(u32, u32), (u32, u32)>> = wide_order(n).into_iter().map(|k| Ok((b1 + s1 * k, b2 + s2 * k))).collect();
+    if extra {
+        let h = v.len() / 2;
+        v.insert(h, Err((WIDE_EXTRA, WIDE_EXTRA + 2)));
+        v.push(Err((WIDE_EXTRA + 1, WIDE_EXTRA + 1)));
+    }
+    v
+}
+
+fn balanced<T: Copy>(items: &[T], f: &mut impl FnMut(T, T) -> T) -> T {
+    if items.len() == 1 {
+        items[0]
+    } else {
+        let h = items.len() / 2;
+        let l = balanced(&items[..h], f);
+        let r = balanced(&items[h..], f);
+        f(l, r)
+    }
 }
 
 impl Op {
@@ -68,6 +112,7 @@ impl Op {
             Op::SmtLoop(..) => "smtloop",
             Op::LoopFin(..) => "loopfin",
             Op::LoopInf(..) => "loopinf",
+            Op::Wide { .. } => "wide",
         }
     }
 
@@ -105,6 +150,7 @@ impl Op {
             Op::Comp(i) | Op::Star(i) | Op::Plus(i) | Op::Opt(i) => format!("{} {}", n, i),
             Op::Exp(i, k) | Op::LoopInf(i, k) => format!("{} {} {}", n, i, k),
             Op::SmtLoop(i, a, b) | Op::LoopFin(i, a, b) => format!("{} {} {} {}", n, i, a, b),
+            Op::Wide { n: k, b1, s1, b2, s2, extra, tree } => format!("{} {} {:x} {} {:x} {} {} {}", n, k, b1, s1, b2, s2, *extra as u8, *tree as u8),
         }
     }
 
@@ -204,6 +250,10 @@ impl Op {
                 need(3)?;
                 Op::LoopFin(ix(a[0])?, nu(a[1])?, nu(a[2])?)
             }
+            "wide" => {
+                need(7)?;
+                Op::Wide { n: nu(a[0])?, b1: hx(a[1])?, s1: nu(a[2])?, b2: hx(a[3])?, s2: nu(a[4])?, extra: a[5] == "1", tree: a[6] == "1" }
+            }
             x => return Err(format!("unknown op {}", x)),
         })
     }
@@ -249,6 +299,15 @@ impl Op {
             Op::Exp(i, k) => r_loop(g(i), *k, Some(*k)),
             Op::SmtLoop(i, a, b) | Op::LoopFin(i, a, b) => r_loop(g(i), *a, Some(*b)),
             Op::LoopInf(i, a) => r_loop(g(i), *a, None),
+            Op::Wide { n, b1, s1, b2, s2, extra, .. } => r_or(
+                wide_items(*n, *b1, *s1, *b2, *s2, *extra)
+                    .into_iter()
+                    .map(|it| match it {
+                        Ok((f, l)) => r_cat(vec![r_range(f, f), r_range(l, l)]),
+                        Err((x, y)) => r_range(x, y),
+                    })
+                    .collect(),
+            ),
         }
     }
 
@@ -282,6 +341,23 @@ impl Op {
             Op::SmtLoop(i, a, b) => m.smt_loop(g(i), *a, *b),
             Op::LoopFin(i, a, b) => m.mk_loop(g(i), LoopRange::finite(*a, *b)),
             Op::LoopInf(i, a) => m.mk_loop(g(i), LoopRange::infinite(*a)),
+            Op::Wide { n, b1, s1, b2, s2, extra, tree } => {
+                let mut items: Vec<RegLan> = Vec::new();
+                for it in wide_items(*n, *b1, *s1, *b2, *s2, *extra) {
+                    items.push(match it {
+                        Ok((f, l)) => {
+                            let (x, y) = (m.char(f), m.char(l));
+                            m.concat(x, y)
+                        }
+                        Err((x, y)) => m.range(x, y),
+                    });
+                }
+                if *tree {
+                    balanced(&items, &mut |x, y| m.union(x, y))
+                } else {
+                    m.union_list(items.into_iter())
+                }
+            }
         }
     }
 
@@ -314,6 +390,20 @@ impl Op {
             Op::Exp(i, k) => w::re_power(g(i), *k),
             Op::SmtLoop(i, a, b) | Op::LoopFin(i, a, b) => w::re_loop(g(i), *a, *b),
             Op::LoopInf(i, a) => w::re_concat(w::re_power(g(i), *a), w::re_star(g(i))),
+            Op::Wide { n, b1, s1, b2, s2, extra, tree } => {
+                let items: Vec<RegLan> = wide_items(*n, *b1, *s1, *b2, *s2, *extra)
+                    .into_iter()
+                    .map(|it| match it {
+                        Ok((f, l)) => w::str_to_re(&s(&[f, l])),
+                        Err((x, y)) => w::re_range(&s(&[x]), &s(&[y])),
+                    })
+                    .collect();
+                if *tree {
+                    balanced(&items, &mut |x, y| w::re_union(x, y))
+                } else {
+                    w::re_union_list(items.into_iter())
+                }
+            }
         }
     }
 }
@@ -380,6 +470,20 @@ impl Program {
                     v.extend_from_slice(b)
                 }
                 Op::Str(s) => v.extend_from_slice(s),
+                Op::Wide { n, b1, s1, b2, s2, extra, .. } => {
+                    for it in wide_items(*n, *b1, *s1, *b2, *s2, *extra) {
+                        match it {
+                            Ok((f, l)) => {
+                                v.push(f);
+                                v.push(l)
+                            }
+                            Err((x, y)) => {
+                                v.push(x);
+                                v.push(y)
+                            }
+                        }
+                    }
+                }
                 _ => {}
             }
         }
@@ -854,6 +958,37 @@ impl<'a> Gen<'a> {
     }
 
     /// a union / intersection-of-complements / concatenation with exactly N operands, N around a power of two
+    /// a wide union as ONE constructor step (operand counts around 2^6, 2^7, 2^8), then one operator on top
+    fn gen_wide_macro(&mut self) {
+        let n = *self.rng.pick(&[65u32, 66, 100, 129, 255, 256, 257, 300]);
+        let s1 = 1 + self.rng.below(2) as u32;
+        let b1 = match self.rng.below(4) {
+            0 => 0,
+            1 => 0x1000 + self.rng.below(0x100) as u32,
+            2 => MAXC - s1 * (n - 1),
+            _ => 1,
+        };
+        let s2 = self.rng.below(3) as u32;
+        // last letters apart from the first letters (overlapping letter sets make star/concat on top of the union
+        // expensive for the crate and the reference alike, without adding a size threshold)
+        let b2 = 0x5000 + self.rng.below(2) as u32 * 0x8000;
+        let op = Op::Wide { n, b1, s1, b2, s2, extra: self.rng.chance(2, 3), tree: self.rng.chance(1, 4) };
+        let u = self.push(op, Kind::Other);
+        match self.rng.below(5) {
+            0 => {
+                self.push(Op::Star(u), Kind::Other);
+            }
+            1 => {
+                self.push(Op::Comp(u), Kind::Other);
+            }
+            2 => {
+                let j = self.pick();
+                self.push(Op::Inter(u, j), Kind::Other);
+            }
+            _ => {}
+        }
+    }
+
     fn gen_wide_list(&mut self) {
         let n = *self.rng.pick(&[7usize, 8, 9, 15, 16, 17, 31, 32, 33, 63, 64, 65]);
         let base = 0x100 + self.rng.below(0x80) as u32 * 0x100;
@@ -896,6 +1031,10 @@ impl<'a> Gen<'a> {
         }
         if self.n() >= 3 && self.prof != Profile::Small && self.prof != Profile::Patterns && self.rng.chance(1, 150) {
             self.gen_wide_list();
+            return;
+        }
+        if self.n() >= 3 && self.prof != Profile::Small && self.rng.chance(1, 120) {
+            self.gen_wide_macro();
             return;
         }
         if self.n() < 3 {
